@@ -26,6 +26,29 @@ if TYPE_CHECKING:
 
 logger = logging.getLogger(__name__)
 
+# Assets and associations are schema objects whose equality compares their
+# contents. The contents refer back to each other (an asset lists its
+# associations, an association lists its assets), so comparing two of them
+# may not terminate, and an equal object is not the same object. Membership
+# and removal therefore go by identity.
+def _index_of(objects, obj) -> int:
+    """Position of obj itself in objects, -1 if it is not there"""
+    for index, candidate in enumerate(objects):
+        if candidate is obj:
+            return index
+    return -1
+
+def _contains(objects, obj) -> bool:
+    """True if obj itself is one of objects"""
+    return _index_of(objects, obj) >= 0
+
+def _remove(objects, obj) -> None:
+    """Remove obj itself from objects"""
+    index = _index_of(objects, obj)
+    if index < 0:
+        raise ValueError('object is not in the list')
+    del objects[index]
+
 @dataclass
 class AttackerAttachment:
     """Used to attach attackers to attack step entry points of assets"""
@@ -53,7 +76,7 @@ class AttackerAttachment:
         None, otherwise.
         """
         return next((ep_tuple for ep_tuple in self.entry_points
-                                 if ep_tuple[0] == asset), None)
+                                 if ep_tuple[0] is asset), None)
 
 
     def add_entry_point(
@@ -120,7 +143,7 @@ class AttackerAttachment:
                 )
 
             if not entry_point_tuple[1]:
-                self.entry_points.remove(entry_point_tuple)
+                _remove(self.entry_points, entry_point_tuple)
         else:
             logger.warning(
                 f'Failed to find entry points on asset "{asset.name}" '
@@ -227,7 +250,7 @@ class Model():
             'Remove "%s"(%d) from model "%s".',
             asset.name, asset.id, self.name
         )
-        if asset not in self.assets:
+        if not _contains(self.assets, asset):
             raise LookupError(
                 f'Asset "{asset.name}"({asset.id}) is not part'
                 f' of model"{self.name}".'
@@ -241,9 +264,9 @@ class Model():
         for attacker in self.attackers:
             entry_point_tuple = attacker.get_entry_point_tuple(asset)
             if entry_point_tuple:
-                attacker.entry_points.remove(entry_point_tuple)
+                _remove(attacker.entry_points, entry_point_tuple)
 
-        self.assets.remove(asset)
+        _remove(self.assets, asset)
         self.asset_ids.discard(asset.id)
         self.asset_names.discard(asset.name)
 
@@ -265,12 +288,12 @@ class Model():
             asset.name, asset.id, type(association)
         )
 
-        if asset not in self.assets:
+        if not _contains(self.assets, asset):
             raise LookupError(
                 f'Asset "{asset.name}"({asset.id}) is not part of model '
                 f'"{self.name}".'
             )
-        if association not in self.associations:
+        if not _contains(self.associations, association):
             raise LookupError(
                 f'Association is not part of model "{self.name}".'
             )
@@ -281,14 +304,14 @@ class Model():
         right_field = getattr(association, right_field_name)
         found = False
         for field in [left_field, right_field]:
-            if asset in field:
+            if _contains(field, asset):
                 found = True
                 if len(field) == 1:
                     # There are no other assets on this side,
                     # so we should remove the entire association.
                     self.remove_association(association)
                     return
-                field.remove(asset)
+                _remove(field, asset)
 
         if not found:
             raise LookupError(f'Asset "{asset.name}"({asset.id}) is not '
@@ -296,7 +319,7 @@ class Model():
 
         # The asset is no longer part of the association
         assocs = list(asset.associations)
-        assocs.remove(association)
+        _remove(assocs, association)
         asset.associations = assocs
 
     def _validate_association(self, association: SchemaGeneratedClass) -> None:
@@ -313,8 +336,15 @@ class Model():
             association_type, []
         )
 
-        # Check if identical association already exists
-        if association in associations_same_type:
+        # Check if identical association already exists: one of the same
+        # type with the same assets, by id, in both fields
+        def same_assets(other: SchemaGeneratedClass) -> bool:
+            return all(
+                [a.id for a in getattr(association, field_name)] ==
+                [a.id for a in getattr(other, field_name)]
+                for field_name in self.get_association_field_names(other)
+            )
+        if any(same_assets(other) for other in associations_same_type):
             raise DuplicateModelAssociationError(
                 f"Identical association {association_type} already exists"
             )
@@ -400,7 +430,7 @@ class Model():
         association     - the association to remove from the model
         """
 
-        if association not in self.associations:
+        if not _contains(self.associations, association):
             raise LookupError(
                 f'Association is not part of model "{self.name}".'
             )
@@ -412,23 +442,24 @@ class Model():
 
         for asset in left_field:
             assocs = list(asset.associations)
-            assocs.remove(association)
+            _remove(assocs, association)
             asset.associations = assocs
 
         for asset in right_field:
             # In fringe cases we may have reflexive associations where the
             # association was already removed when processing the left field
             # assets therefore we have to check if it is still in the list.
-            if association in asset.associations:
+            if _contains(asset.associations, association):
                 assocs = list(asset.associations)
-                assocs.remove(association)
+                _remove(assocs, association)
                 asset.associations = assocs
 
-        self.associations.remove(association)
+        _remove(self.associations, association)
 
         # Remove association from type->association mapping
         association_type = association.__class__.__name__
-        self._type_to_association[association_type].remove(
+        _remove(
+            self._type_to_association[association_type],
             association
         )
         # Remove type from type->association mapping if mapping empty
@@ -642,12 +673,12 @@ class Model():
             # An asset can be on both sides of a reflexive association, in
             # which case both fields provide associated assets.
             if right_field_name == field_name and \
-                    asset in getattr(association, left_field_name):
+                    _contains(getattr(association, left_field_name), asset):
                 associated_assets.extend(
                     getattr(association, right_field_name)
                 )
             if left_field_name == field_name and \
-                    asset in getattr(association, right_field_name):
+                    _contains(getattr(association, right_field_name), asset):
                 associated_assets.extend(
                     getattr(association, left_field_name)
                 )
